@@ -9,6 +9,7 @@ import (
 	_ "verifmc/props/c08"
 	_ "verifmc/props/c10"
 	_ "verifmc/props/c11"
+	_ "verifmc/props/c12"
 	_ "verifmc/props/c13"
 	_ "verifmc/props/c14"
 	_ "verifmc/props/c15"
